@@ -146,7 +146,7 @@ def compare_post_repair(ctx, rcase, crr, prr, fresh, srv_of, n):
 PARAM_LINES = ([], [], [])
 
 
-def run_file(ctx, fidx, n_plans, seed, lines, impl, cases, rlines=None, rimpl=None, rcases=None):
+def run_file(ctx, fidx, n_plans, seed, lines, impl, cases, rlines=None, rimpl=None, rcases=None, fixed_plans=None, policy=None):
     import grid
     import random
     from allmydata.immutable.filenode import CiphertextFileNode
@@ -164,7 +164,7 @@ def run_file(ctx, fidx, n_plans, seed, lines, impl, cases, rlines=None, rimpl=No
     data = C2.file_data(size, 7000 + fidx)
     mode = verifier_mode()
     hmode = C2.hashtree_mode()
-    with grid.Runtime(seed=seed, policy=rng.choice(["random", "random", "fifo"])) as rt:
+    with grid.Runtime(seed=seed, policy=policy or rng.choice(["random", "random", "fifo"])) as rt:
         g = grid.Grid(grid.fresh_dir("c45"), rt, num_servers=n, num_clients=2, k=k, happy=1, n=n, max_segment_size=maxseg)
         try:
             c = g.clients[0]
@@ -187,7 +187,8 @@ def run_file(ctx, fidx, n_plans, seed, lines, impl, cases, rlines=None, rimpl=No
                 rt.steps = 0
                 return rt.wait(d, max_steps=400000)
 
-            for pi in range(n_plans):
+            for pi in range(len(fixed_plans) if fixed_plans is not None else n_plans):
+                fx = fixed_plans[pi] if fixed_plans is not None else None
                 # restore
                 for t in files:
                     os.makedirs(os.path.dirname(t[2]), exist_ok=True)
@@ -217,7 +218,11 @@ def run_file(ctx, fidx, n_plans, seed, lines, impl, cases, rlines=None, rimpl=No
                         act = "forge"
                     else:
                         act = "mutate"
+                    if fx is not None:
+                        act = fx["shares"].get(t[1], "keep")
                     plan[t] = act
+                if fx is not None:
+                    few = {ti for ti, t in enumerate(files) if plan[t] not in ("keep", "delete")}
                 bodies = {}
                 desc = {}
                 for t in files:
@@ -227,7 +232,11 @@ def run_file(ctx, fidx, n_plans, seed, lines, impl, cases, rlines=None, rimpl=No
                         desc[t[1]] = "delete"
                         continue
                     body = snap[t]
-                    if act == "forge":
+                    if isinstance(act, dict):
+                        m = act
+                        body = C2.apply_mutation(m, body, {})
+                        desc[t[1]] = C2.mut_class(m)
+                    elif act == "forge":
                         body = forge(body, size, k)
                         desc[t[1]] = "forge"
                     elif act == "mutate-site":
@@ -251,6 +260,9 @@ def run_file(ctx, fidx, n_plans, seed, lines, impl, cases, rlines=None, rimpl=No
                         C2.write_body(t[2], body)
                     bodies[t] = body
                 case = {"file": fidx, "seed": seed, "pi": pi, "plan": desc}
+                if fx is not None:
+                    case["kind"] = "corpus"
+                    case["corpus"] = fx["name"]
                 present = {t[1] for t in bodies}
                 intact = {t[1] for t in bodies if bodies[t] == snap[t]}
                 valid = {t[1] for t in bodies if items(bodies[t], size, k) is not None and items(bodies[t], size, k) == genuine_items[t[1]]}
@@ -309,11 +321,11 @@ def run_file(ctx, fidx, n_plans, seed, lines, impl, cases, rlines=None, rimpl=No
                     impl.append(verdict.get((t[0], t[1]), "raised"))
                     cases.append(dict(case, shnum=t[1], what=desc[t[1]]))
                 # ---------------- check and repair (half of the time through a verify-cap node)
-                via_verifycap = rng.random() < 0.5
+                via_verifycap = rng.random() < 0.5 if fx is None else fx.get("via_verifycap", False)
                 node = C2.fresh_node(c, vcap.to_string() if via_verifycap else cap)
                 pre_files = {t: None for t in g.share_files(si)}
                 pre_body = {t: C2.read_body(t[2]) for t in pre_files}
-                use_verify = rng.random() < 0.7 or bool(few)
+                use_verify = (rng.random() < 0.7 or bool(few)) if fx is None else fx.get("verify", True)
                 crr = None
                 gathered = []
                 orig_gather = CiphertextFileNode._gather_repair_results
@@ -403,7 +415,7 @@ def run_file(ctx, fidx, n_plans, seed, lines, impl, cases, rlines=None, rimpl=No
                         ctx.violation("the file cannot be read from %d repaired shares alone (%s)" % (len(new), end), rcase,
                                       "repaired-read-failed")
                 nontrivial = any(d != "keep" for d in desc.values())
-                ctx.case((fidx, seed, pi) if nontrivial else None)
+                ctx.case((fidx, seed, pi, case.get("corpus")) if nontrivial else None)
         finally:
             g.close()
 
@@ -504,16 +516,59 @@ def run_functions(ctx):
     ctx.compare("Checker._format_results on random per-server results", cases, impl, ctx.model(lines))
 
 
+CORPUS_SEED = 20260922
+
+
+def flip(region, off=0, xor=0xff):
+    return {"kind": "flip", "region": region, "off": off, "xor": xor}
+
+
+def run_corpus(ctx, lines, impl, cases, rlines, rimpl, rcases):
+    """FIXED CORPUS (independent of VERIF_SEED): one minimal plan per known mechanism — the defect repaired in /repo
+    (fb3513d) and the seeded changes C45-a, C45-b, C45-c. FILES: 0=(100,1,2,32) 1=(200,2,4,64) 7=(90,2,2,1000) one segment"""
+    # fix fb3513d: blocks replaced + block hash tree recomputed must not verify good (with and without repair via verify-cap)
+    run_file(ctx, 1, 0, CORPUS_SEED, lines, impl, cases, rlines, rimpl, rcases, fixed_plans=[
+        {"name": "forged-blocks-consistent-tree", "shares": {0: "forge"}},
+        {"name": "forged-blocks-consistent-tree-2", "shares": {1: "forge", 2: "forge"}, "via_verifycap": True}])
+    # C45-a: only the crypttext hash tree of one share damaged: (a) one-segment file (the tree is the root alone),
+    # (b) multi-segment file under several delivery orders
+    run_file(ctx, 7, 0, CORPUS_SEED, lines, impl, cases, rlines, rimpl, rcases, fixed_plans=[
+        {"name": "ct-hash-tree-one-segment", "shares": {0: flip("crypttext_hash_tree", 5)}},
+        {"name": "ct-hash-tree-one-segment-b", "shares": {1: flip("crypttext_hash_tree", 31, 1)}}])
+    for pol in ("lifo", "random", "fifo"):
+        run_file(ctx, 1, 0, CORPUS_SEED, lines, impl, cases, rlines, rimpl, rcases, policy=pol, fixed_plans=[
+            {"name": "ct-hash-tree-multi-segment-" + pol, "shares": {sh: flip("crypttext_hash_tree", 40 + sh)}} for sh in range(4)])
+    # C45-b: repair of a multi-segment file shorter than the default maximum segment size (a share deleted)
+    run_file(ctx, 1, 0, CORPUS_SEED, lines, impl, cases, rlines, rimpl, rcases, fixed_plans=[
+        {"name": "repair-multi-segment-small-file", "shares": {0: "delete"}},
+        {"name": "repair-multi-segment-small-file-vcap", "shares": {1: "delete", 3: "delete"}, "via_verifycap": True, "verify": False}])
+    run_file(ctx, 0, 0, CORPUS_SEED, lines, impl, cases, rlines, rimpl, rcases, fixed_plans=[
+        {"name": "repair-multi-segment-1-of-2", "shares": {1: "delete"}}])
+    # C45-c: a share corrupt in place (its server keeps claiming it) + check_and_repair(verify=True): post-repair results
+    run_file(ctx, 0, 0, CORPUS_SEED, lines, impl, cases, rlines, rimpl, rcases, fixed_plans=[
+        {"name": "corrupt-in-place-then-repair", "shares": {0: flip("data", 3)}, "via_verifycap": True},
+        {"name": "corrupt-ueb-in-place-then-repair", "shares": {1: flip("ueb", 10)}}])
+    run_file(ctx, 1, 0, CORPUS_SEED, lines, impl, cases, rlines, rimpl, rcases, fixed_plans=[
+        {"name": "corrupt-in-place-plus-deleted", "shares": {0: flip("block_hashes", 7), 2: "delete"}},
+        {"name": "corrupt-share-hashes-in-place", "shares": {3: flip("share_hashes", 2)}}])
+    ctx.count("corpus-run")
+
+
 def run(ctx):
     import common
     common.setup_impl_path()
     import grid  # noqa: F401
     lines, impl, cases = [], [], []
     rlines, rimpl, rcases = [], [], []
-    if ctx.replay and isinstance(ctx.replay.get("case"), dict) and "file" in ctx.replay["case"]:
+    if ctx.replay and isinstance(ctx.replay.get("case"), dict) and ctx.replay["case"].get("kind") == "corpus":
+        run_corpus(ctx, lines, impl, cases, rlines, rimpl, rcases)
+    elif ctx.replay and isinstance(ctx.replay.get("case"), dict) and "file" in ctx.replay["case"]:
         cs = ctx.replay["case"]
         run_file(ctx, cs["file"], cs.get("pi", 0) + 1, cs["seed"], lines, impl, cases, rlines, rimpl, rcases)
+    elif os.environ.get("VERIF_CORPUS_ONLY"):
+        run_corpus(ctx, lines, impl, cases, rlines, rimpl, rcases)
     else:
+        run_corpus(ctx, lines, impl, cases, rlines, rimpl, rcases)
         run_functions(ctx)
         for i in range(ctx.budget(12, 64)):
             run_file(ctx, i, ctx.budget(30, 80), ctx.rng.randrange(1 << 30), lines, impl, cases, rlines, rimpl, rcases)
